@@ -4,7 +4,7 @@ import fcntl, hashlib, json, os, shutil, subprocess, sys, time, uuid
 
 VERIF = os.path.abspath(os.path.join(os.path.dirname(__file__), '..', '..', '..'))
 REPO = os.environ.get('DDO_REPO', '/repo')
-CACHE = os.path.join(VERIF, '.cache')
+CACHE = os.environ.get('VERIF_CACHE_DIR') or os.path.join(VERIF, '.cache')   # the override is a development aid (parallel scratch runs)
 DRIVER_DIR = os.path.join(VERIF, 'engine', 'factsdrv')
 DRIVER = os.path.join(DRIVER_DIR, 'target', 'release', 'factsdrv')
 
